@@ -164,6 +164,15 @@ class RefBuf:
                 return 'F', 'mut'
             self.x = x[:p] + y + x[p:]
             return 'T', 'mut'
+        if o == 'insself':
+            p = int(f[1])
+            if p > len(x) or len(x) == 0:
+                return 'F', 'mut'
+            self.x = x[:p] + x + x[p:]
+            return 'T', 'mut'
+        if o == 'appself':
+            self.x = x + x
+            return 'T', 'mut'
         if o in ('app', 'appd', 'appc'):
             y = arg_bytes(f[1])
             if y is not None:
@@ -369,7 +378,7 @@ def rnd_str(rng):
 
 OPS = ['len', 'get', 'set', 'cstr', 'dup', 'ins', 'insc', 'app', 'appd', 'appc', 'appch', 'appmb', 'del',
        'shrink', 'strip', 'nosp', 'rtz', 'cmp', 'cmpc', 'split', 'sch', 'srch', 'srchc', 'onlyws',
-       'h2b', 'b2h', 'd64', 'e64']
+       'h2b', 'b2h', 'd64', 'e64', 'insself', 'appself']
 WEIGHT = {'ins': 3, 'insc': 2, 'app': 2, 'appd': 2, 'appc': 2, 'appch': 2, 'del': 4, 'shrink': 3, 'strip': 2,
           'nosp': 2, 'set': 2, 'srch': 3, 'srchc': 2, 'sch': 2, 'h2b': 1, 'b2h': 1, 'd64': 1, 'e64': 1}
 
@@ -439,6 +448,8 @@ def rnd_op(rng, ref, stats):
         return f'{o}:{pre}{bytes(y).hex()}:{rnd_pos(rng, n)}'
     if o == 'b2h':
         return f'b2h:{rng.randint(0, 1)}'
+    if o == 'insself':
+        return f'insself:{rnd_pos(rng, n)}'
     return o
 
 
@@ -485,7 +496,7 @@ def rnd_list_history(rng, maxops):
     return 'LIST ' + ' '.join(ops)
 
 
-SMALL_OPS = ['appch:20', 'appch:61', 'appd:B0920', 'ins:D2020:1', 'insc:B62:0', 'del:0:1', 'del:1:2', 'set:0:0a',
+SMALL_OPS = ['appself', 'insself:1', 'appch:20', 'appch:61', 'appd:B0920', 'ins:D2020:1', 'insc:B62:0', 'del:0:1', 'del:1:2', 'set:0:0a',
              'shrink', 'strip', 'nosp', 'rtz', 'h2b', 'b2h:1', 'd64', 'e64', 'srch:D:1', 'srch:D2020:0']
 SMALL_INITS = ['D:-:0', 'D:612020:1', 'S:2061']
 SMALL_LOPS = ['app:1', 'app:2', 'ins:3:0', 'ins:4:1', 'ins:5:9', 'xf', 'get:1', 'app:0']
@@ -508,11 +519,12 @@ def exhaustive_lines(depth):
 
 # ------------------------------------------------------------------ running both sides
 
-def run_harness(exe, env, lines):
-    """Runs the harness over all lines, restarting after a sanitizer abort.
+def run_harness(exe, env, lines, max_crashes=40):
+    """Runs the harness over all lines, restarting after a sanitizer abort (at most `max_crashes`
+    times: that many aborts are evidence enough; the remaining lines stay unanswered = None).
     Returns (outputs, crashes) with outputs[i] = response or None, crashes = [(index, stderr)]."""
     outs, crashes, start = [None] * len(lines), [], 0
-    while start < len(lines):
+    while start < len(lines) and len(crashes) < max_crashes:
         inp = '\n'.join(lines[start:]) + '\n'
         r = subprocess.run([exe], input=inp, env=env, stdout=subprocess.PIPE, stderr=subprocess.PIPE, text=True, errors='replace')
         got = r.stdout.split('\n')
@@ -664,7 +676,7 @@ def run(res, args):
     # ---- run in chunks (bounded memory), compare, apply the oracle
     t0 = time.time()
     suspects = []      # (line, reason-kind, detail)
-    ndiff = nor = ncrash = 0
+    ndiff = nor = ncrash = nskipped = 0
     opcount, lenhist, retkinds = {}, {}, {}
     oor = static_hist = nul_lines = grow = 0
     wsruns = set()
@@ -681,6 +693,9 @@ def run(res, args):
                 suspects.append((ln, 'sanitizer', san_summary(crashed[k])))
                 continue
             o = impl[k]
+            if o is None:          # not run: the abort budget of this chunk was used up
+                nskipped += 1
+                continue
             orc = check_buf_line(ln, o) if ln.startswith('BUF') else check_list_line(ln, o)
             if orc:
                 nor += 1
@@ -818,7 +833,8 @@ def run(res, args):
     model_s = run_driver([lines[i] for i in smp])
     res.samples = [{'request': lines[i][:400], 'impl': (impl_s[n] or '')[:400], 'model': (model_s[n] or '')[:400]} for n, i in enumerate(smp)]
     res.coverage.update({
-        'traces_validated_against_impl': len(lines) - ndiff - nor - ncrash,
+        'traces_validated_against_impl': len(lines) - ndiff - nor - ncrash - nskipped,
+        'lines_not_run_after_abort_budget': nskipped,
         'histories': {'buf_random': nbuf, 'list_random': nlist, 'exhaustive_small': nexh, 'corpus': ncorpus},
         'history_length_histogram': {str(k): v for k, v in sorted(lenhist.items())},
         'ops_hit': dict(sorted(opcount.items())),
